@@ -394,8 +394,13 @@ def correspondence(ctx, tr, gen_ok, tree, real_pages):
                     loops["enumerate(traceback)"] = [
                         Val({"i % 2": str(i % 2), "line": line})
                         for i, line in enumerate(lines)]
+                scope = None
+                if debug:
+                    import types
+                    scope = {"req": types.SimpleNamespace(uri_handler=hdl),
+                             "code": getattr(hdl, "__code__", None)}
                 val = Val(holes, {"req.debug": debug, "req.uri_handler": True},
-                          loops)
+                          loops, scope=scope)
                 cases.append(("internal_server_error", val, body_text(ans),
                               ("internal_server_error", debug, uri, host,
                                method)))
